@@ -10,7 +10,9 @@ COQ_EXEC = ['exec.X_filter']
 COQ_IMPORTS = 'From PB Require Import model.M_table model.M_filter.\n'
 PER_FILE = 400
 CASE_TIMEOUT = 10
-RULE = ('cases: (table of 0-6 rows x 1-3 columns over {None, 0, 1, 1.0, 2, 2.5, shared NaN objects, "a", "ab", "b", ""}, condition, column for find_) '
+RULE = ('column names (tables, conditions, callable arguments, find_<col>) are drawn from a pool that includes id, name, date, f, n1, _x, find_me, dd '
+        '(names built from / starting with the letters of "find_") besides a, b, c. '
+        'cases: (table of 0-6 rows x 1-3 columns over {None, 0, 1, 1.0, 2, 2.5, shared NaN objects, "a", "ab", "b", ""}, condition, column for find_) '
         'where the condition is: nothing; 1-3 keyword filters (or the same as a positional dict) each a value / None / a NaN (the shared object or a fresh one) / '
         'a list of values (incl. lists holding NaN objects, empty lists) / a compiled literal regex; or one callable from the named set (coalesce, is_none, '
         'identity, eq). Conditions matching nothing and everything are forced. For each case d.inc(c), d.exc(c), d.inc(c).inc(c), d.find_<col>(c), '
@@ -24,14 +26,21 @@ EXPLANATION = ('theorems C06_* (coq/props/C06.v) hold for every rectangular tabl
 TRUSTED = ['modelled, not verified: coq/model/M_filter.v + M_table.v (tied by the correspondence only)',
            'regexes restricted to literal patterns (re.escape): pattern.search = substring test',
            'kwargs_support / callables restricted to the named set of M_table.rowfn']
-ASSUMPTIONS = ['cells are None, ints, half-integer floats, NaN objects, ASCII strings', 'a call has either one callable or keyword/dict filters (the property text)']
+ASSUMPTIONS = ['cells are None, ints, half-integer floats, NaN objects, ASCII strings',
+               'a call has either ONE callable or keyword/dict filters, as in the property text ("any single predicate ..., or any conjunction of column conditions"): '
+               'mixed calls inc(f, col=v) / exc(f, col=v) are outside it - exc(f, col=v) drops the rows matching f OR the filters, so it is by design not the complement '
+               'of inc(f, col=v); observed on the pinned tree and not claimed: inc(<callable matching nothing>, col=v) raises KeyError because the intermediate empty result has lost its columns',
+               'only the SET of columns of inc/exc results is claimed (exc and keyword inc rebuild through dict_concat, which may reorder the keys); observations sort columns',
+               'column names are ASCII identifiers other than data, columns, key, exc, find (parameter names of the API)']
 EXHAUSTIVE = {'quick': False, 'thorough': False}
 LEVEL_TEXT = ('machine-checked Coq theorems C06_* for all rectangular tables and all conditions (values, lists, None, NaN objects, literal regexes, dict filters, '
               'named callables) about a model of inc/exc/find_; model compared with the real dictable on thousands of generated (table, condition) pairs')
 LEVEL_NOTE = 'model tied to the source by the differential run only; regexes literal only; NaN identity modelled by object ids'
 TECHNIQUE = 'Coq refinement proof (sequential masks = filter by the conjunction) + differential correspondence in vm_compute + predicate oracle'
 
-NAMES = ['a', 'b', 'c']
+# column names: plain ones and names made only of the letters of 'find_' / starting with them (find_<col> must cut the PREFIX 'find_', not a character set)
+NAMES = ['a', 'b', 'c', 'id', 'name', 'date', 'f', 'n1', '_x', 'find_me', 'dd']
+NAME_PAIRS = [('a', 'b'), ('id', 'name'), ('f', 'date'), ('_x', 'n1'), ('find_me', 'dd'), ('name', 'id'), ('dd', 'f')]
 
 def cond_coq(c):
     if 'v' in c: return '(CVal %s)' % cell_coq(c['v'])
@@ -158,7 +167,7 @@ FRESH_NAN = {'nan': 9}
 def gen_table(rng):
     nrows = rng.choice([0, 1, 2, 3, 4, 5, 6]); ncols = rng.choice([1, 2, 2, 3])
     pool = rng.sample(CELLS, rng.choice([2, 3, 4, 6]))
-    names = NAMES[:ncols]
+    names = rng.sample(NAMES, ncols) if rng.random() < 0.8 else NAMES[:ncols]
     return [[n, {'L': [rng.choice(pool) for _ in range(nrows)]}] for n in names], pool
 
 def gen_cond(rng, pool, colvals):
@@ -183,7 +192,7 @@ def gen_cases(rng, tier):
         if r < 0.06: q = {'none': 1}
         elif r < 0.3:
             k = rng.choice(['coalesce', 'isnone', 'ident', 'eq'])
-            args = [rng.choice(names + (['c'] if rng.random() < 0.05 else []))]
+            args = [rng.choice(names + (['zz'] if rng.random() < 0.05 else []))]
             if k in ('coalesce', 'eq'):
                 others = [x for x in NAMES if x != args[0]]
                 args.append(rng.choice([x for x in others if x in names] or others))
@@ -206,7 +215,8 @@ def gen_cases(rng, tier):
         for cells in itertools.product(vals, repeat=nrows):
             for c in conds:
                 if rng.random() > frac: continue
-                cases.append({'kvs': [['a', {'L': list(cells)}], ['b', {'L': list(range(nrows))}]], 'q': {'filters': [['a', c]], 'form': 'kw'}, 'fkey': 'b', 'kind': 'small'})
+                ka, kb = rng.choice(NAME_PAIRS)
+                cases.append({'kvs': [[ka, {'L': list(cells)}], [kb, {'L': list(range(nrows))}]], 'q': {'filters': [[ka, c]], 'form': 'kw'}, 'fkey': rng.choice([kb, kb, ka]), 'kind': 'small'})
     return cases
 
 def nontrivial(case, result):
